@@ -211,7 +211,7 @@ def l3(ctx):
     # lock anywhere on the call chain import_one -> _check_duplicate -> _scan_uids
     chain_locked = all(in_any_lock(n) for n in sites)
     for caller_q, callee in ((GIT + "._check_duplicate", "self._scan_uids"), (GIT + ".import_one", "self._check_duplicate")):
-        f = ctx.func(caller_q)
+        f = ctx.own_method(*caller_q.rsplit(".", 1))
         c2 = ctx.cfg(f)
         calls = [n for n in c2.stmt_nodes() for c in n.calls() if dotted(c.func) == callee]
         if calls and all(in_any_lock(n) for n in calls):
